@@ -93,7 +93,7 @@ impl Prop for C15 {
         ]
     }
     fn cases(tier: Tier) -> u32 {
-        tier.pick(4_000, 100_000)
+        tier.pick(4_000, 500_000)
     }
     fn strategy(tier: Tier) -> BoxedStrategy<Case> {
         let maxn = tier.pick(12usize, 12usize);
